@@ -45,6 +45,13 @@ open_("C05", "D27", "C05/path-not-in-commit", [],
 open_("C13", "D28", "C13/lost@f.txt:2", ["C13/lost@f.txt:3"],
       "history: AI session inserts 2 lines after line 1 of f.txt; `git stash push`; a commit to g.txt; `git stash apply`; commit => in wrapper mode lines 2-3 are AI, with git-ai installed as git hooks (plain git) they are human (`stash pop` keeps them in both modes)",
       "c13.stash_apply_after_head_moved_in_hooks_mode", ["hooks_stash_apply"], affects=[])
+open_("C19", "D32", "C19/accepted", ["C19/ai_additions>added", "C19/human+accepted!=added"],
+      "input: commit adds 1 AI line (f.txt:4, session S1); the note is rewritten so that a second session entry also lists line 4 (as merged or foreign notes can); `git-ai stats <sha> --json` => ai_accepted=2 and ai_additions=2 for git_diff_added_lines=1 (accepted_lines_from_attestations sums per entry without de-duplicating lines)",
+      "c19.line_listed_by_two_sessions_counts_twice", ["overlap_injection"], affects=[])
+open_("C09", "D14", "C09/empty-file-fails", [],
+      "input: `git-ai blame empty.txt` (any output format) for an empty tracked file => exit 1 'Invalid line range: 1:0. File has 0 lines'; `git blame` exits 0 with no output (the pinned suite asserts the error, test_blame_edge_empty_file, so the repair is not an unedited-suite-compatible fix)",
+      "c09.blame_of_empty_tracked_file", ["blame_empty_file"], affects=[])
+fixed("C09", "D7", "^fix: blame looks AI lines up under the path", "after `git mv f.txt g.txt` without any edit every AI line of the file was reported human by `git-ai blame g.txt` (the note lookup used the current path instead of the path in the originating commit)", "c09.rename_without_edit_keeps_ai_lines")
 # ---------------------------------------------------------------- C02
 open_("C02", "D20", "C03/unsound-note@f.txt:12", [],
       "history: feature branch = [person replaces 2 lines of f.txt by 1; AI session S1 modifies line 5 of f.txt]; upstream inserts 2 AI lines after line 1 and then 5 human lines after line 5 of f.txt; `git rebase main` (no conflict) => the rewritten AI commit's note lists line 12 (text written by a person) as S1: the full rebase replay mis-places attributions when upstream changed the same file",
